@@ -1,0 +1,23 @@
+//go:build verif
+
+// Contracts for the 02-client genesis import (comment-only; read by /verif's tibcvc).
+package client
+
+//@ // ---- C16: every relayer record of the genesis state is in the registry after InitGenesis, and the chain name is
+//@ // the genesis state's. (Chain names in the record list are assumed pairwise distinct: a later record for the same
+//@ // chain replaces an earlier one.)
+//@ spec relName(R: obj, i: i64): str = as(seqobj(R, i), types.IdentifiedRelayers).ChainName
+//@ spec relList(R: obj, i: i64): obj = as(seqobj(R, i), types.IdentifiedRelayers).Relayers
+//@ func InitGenesis(ctx, k, gs)
+//@   props C16
+//@   modifies tibc
+//@   let R = gs.Relayers
+//@   requires distinct: forall i: i64, j: i64 :: 0 <=s i && i <s j && j <s seqlen(R) ==> relName(R, i) != relName(R, j)
+//@   ensures relayers.imported: forall i: i64 :: 0 <=s i && i <s seqlen(R) ==> keeper.relayersOf(tibc[relayers(relName(R, i))]) == relList(R, i)
+//@   ensures name.imported:     keeper.selfName(tibc) == gs.NativeChainName
+//@   loop #0 invariant rel: forall c: str :: tibc[relayers(c)] == old(tibc)[relayers(c)]
+//@   loop #1 invariant rel: forall c: str :: tibc[relayers(c)] == old(tibc)[relayers(c)]
+//@   loop #2 invariant rel: forall c: str :: tibc[relayers(c)] == old(tibc)[relayers(c)]
+//@   loop #3 invariant range: -1 <=s rangeindex && rangeindex <s seqlen(R)
+//@   loop #3 invariant done:  forall i: i64 :: 0 <=s i && i <=s rangeindex ==> keeper.relayersOf(tibc[relayers(relName(R, i))]) == relList(R, i)
+//@   loop #3 decreases seqlen(R) - 1 - rangeindex
